@@ -86,7 +86,7 @@ def write_table():
     nm = sum(1 for r in rows if r[3] == "yes")
     lines += ["", f"{nd} of {n} are reported by the quick tier now ({ns} superseded by later fixes of /repo: their patch no longer "
               f"applies or has no observable effect); {nm} were missed when first run and led to the strengthening in the last "
-              "column (never to a change of the seeded mutation; two patches were re-based onto fixed code, noted in their row)."]
+              "column (never to a change of the seeded mutation; several patches were re-based onto fixed code (patch.orig.diff kept))."]
     (SEEDED / "README.md").write_text("\n".join(lines) + "\n")
 
 
